@@ -389,3 +389,21 @@ def hunt2_rules(chk, repo):
     else:
         chk.violation("C06.shortbody", wb, "await self._body.write_with_length(writer, content_length)", "writer.length = content_length ... if writer.length: protocol.force_close()",
                       "the declared Content-Length is enforced only as an upper bound: a body that ends early (a generator that stops, a wrong explicit header) leaves the request unfinished, and after an early answer (403/413/redirect) the connection is pooled - the server reads the next request as the missing body bytes")
+    # the other way out of _send(): no body task at all (`else: writer.set_eof()`), although the head may declare a length (explicit header)
+    sd_ = repo.func(REQ, "ClientRequestBase._send")
+    g_ = cfg_of(sd_.node)
+    seof = K.nodes_matching(sd_, "writer.set_eof()")
+    swt = [n for n in g_.nodes if n.kind == "test" and M.contains(n.ast, "self._should_write($P)")]
+    fcl = K.nodes_matching(sd_, "protocol.force_close()")
+    clt = [n for n in g_.nodes if n.kind == "test" and M.contains(n.ast, "self._get_content_length()")]
+    if not seof or not swt:
+        chk.analysis_error("C06.shortbody: `if self._should_write(protocol)` / writer.set_eof() not found in ClientRequestBase._send")
+    else:
+        unchecked = g_.find_path(None, lambda n: n in seof, lambda n: n in clt or n in fcl, EXPLICIT, start_edges=[(t, "F") for t in swt])
+        unclosed = g_.find_path(None, lambda n: n in seof, lambda n: n in fcl, EXPLICIT, start_edges=[(t, "T") for t in clt]) if clt else None
+        if unchecked is None and unclosed is None:
+            chk.ok("C06.shortbody", seof[0].ast, "_send(): a request that ends without a body task closes the connection when its head declared a Content-Length")
+        else:
+            chk.violation("C06.shortbody", sd_, "writer.set_eof()", "if self._get_content_length(): protocol.force_close()",
+                          "a request with an explicit Content-Length header and no body is finished at once and its connection pooled: the server waits for the declared bytes and takes the next request on the connection for them",
+                          path=g_.fmt_path(unchecked or unclosed))
